@@ -17,7 +17,7 @@ import numpy as np
 
 from .. import tlc
 from ..common import Report, MachineryError, seed, quiet
-from .tbf_common import (cyclo_library_check, sorted_states, build_system, exact_rows_array, validate_parallel, enumerate_states, run_tlc,
+from .tbf_common import (cyclo_library_check, sorted_states, build_system, exact_rows_array, validate_parallel, tlc_batch,
                          drop_scratch, guarded, skipped_private, finish_on_error, project_exact, TOL)
 
 PROPS = {
@@ -531,9 +531,16 @@ def _check(rep, tier):
     nalias = nshift = ntriv = nreplayed = 0
     info = dict(grid_listed_in_another_order=0, backends_per_state=defaultdict(int))
     cpu0 = os.times()
-    for name, kw, stride in configs:
+    sens = dict(RSETID=1, NWS="{1}", LATIDS="{1}", TAUIDS="{1}", AMPIDS="{1, 2}", MAXHOPS=1, FFTS="{211, 311}", DKS="{10000}", MAXDER=0)
+    # all TLC runs of the model-checking part at once (at most four JVMs at a time), the replays afterwards
+    results = tlc_batch([dict(module="MC_TBFourier.tla", cfg=mc_cfg(**kw)[0], name=name) for name, kw, _ in configs] +
+                        [dict(module="MC_TBFourier.tla", cfg=mc_cfg(**dict(sens, OnReducedR="TRUE"))[0], name="c02_sens_phase", dump=False,
+                              workers=2, heap="1g", coverage=False, timeout=900),
+                         dict(module="MC_TBFourier.tla", cfg=mc_cfg(**dict(sens, Symmetrise="FALSE"))[0], name="c02_sens_herm", dump=False,
+                              workers=2, heap="1g", coverage=False, timeout=900)])
+    st1, st2 = results[-2:]
+    for (name, kw, stride), tst in zip(configs, results):
         cfg, consts = mc_cfg(**kw)
-        tst = enumerate_states("MC_TBFourier.tla", cfg, name)
         if tst.get("violation"):
             from ..ftable import spec_violation
             spec_violation(rep, tst, name)
@@ -576,11 +583,8 @@ def _check(rep, tier):
         rep.part("tolerance_warning", observed=cmp.maxdev, tolerance=TOL, what="the tolerance is less than 10^4 times the observed deviation")
 
     # ---------------- sensitivity: plausible wrong variants must be rejected by TLC
-    sens = dict(RSETID=1, NWS="{1}", LATIDS="{1}", TAUIDS="{1}", AMPIDS="{1, 2}", MAXHOPS=1, FFTS="{211, 311}", DKS="{10000}", MAXDER=0)
-    st1 = run_tlc("MC_TBFourier.tla", mc_cfg(**dict(sens, OnReducedR="TRUE"))[0], "c02_sens_phase", workers=2, heap="1g", coverage=False, timeout=900)
     if not st1.get("violation") or st1["violation"][1] != "FFTEqualsDirect":
         raise MachineryError(f"sensitivity self-test failed: K-shift phase on the reduced R should violate FFTEqualsDirect ({st1.get('violation')}, {st1.get('error')})")
-    st2 = run_tlc("MC_TBFourier.tla", mc_cfg(**dict(sens, Symmetrise="FALSE"))[0], "c02_sens_herm", workers=2, heap="1g", coverage=False, timeout=900)
     if not st2.get("violation") or st2["violation"][1] not in ("HkHermitian", "HermSymNoopHHK"):
         raise MachineryError(f"sensitivity self-test failed: non-Hermitian models should violate HkHermitian ({st2.get('violation')}, {st2.get('error')})")
     rep.part("sensitivity", phase_on_reduced_R=st1["violation"][1], non_hermitian_model=st2["violation"][1])
